@@ -1,3 +1,4 @@
+#include <algorithm>
 // C11 — distributed matrix algebra equals serial algebra for every partition.
 // World: a global (rectangular) matrix, R ranks = fibers of the simulated MPI (sim/mpi.cpp), contiguous row and
 // column partitions drawn from all compositions (empty ranks allowed), per-rank OpenMP teams, seeded delivery faults
@@ -127,10 +128,16 @@ Result execute(const Plan &p) {
         // product
         auto dC = amgcl::mpi::product(dA, dB);
         add_strip(gotC, *dC->local(), *dC->remote(), r0, kp[rank]);
+        { amgcl::mpi::sort_rows(*dC);   // products and transposes come out with unordered rows; sorting them must order both parts
+          for (int part = 0; part < 2; ++part) { const auto &M = part ? *dC->remote() : *dC->local();
+            for (size_t i = 0; i < M.nrows; ++i) for (ptrdiff_t j = M.ptr[i] + 1; j < M.ptr[i+1]; ++j) if (M.col[j] < M.col[j-1]) { fails[rank] += fmt("sort_rows(product) left an unsorted %s row; ", part ? "remote" : "local"); i = M.nrows - 1; break; } } }
         // scale + sort_rows on a copy
-        { DM dS(comm, std::make_tuple((size_t)As.n, std::ref(As.ptr), std::ref(As.col), std::ref(As.val)), c1 - c0);
+        { gen::Csr Ar = As;   // the caller's rows in descending column order: sort_rows has real work in the local and in the remote part
+          for (long i = 0; i < Ar.n; ++i) { std::reverse(Ar.col.begin() + Ar.ptr[i], Ar.col.begin() + Ar.ptr[i+1]); std::reverse(Ar.val.begin() + Ar.ptr[i], Ar.val.begin() + Ar.ptr[i+1]); }
+          DM dS(comm, std::make_tuple((size_t)Ar.n, std::ref(Ar.ptr), std::ref(Ar.col), std::ref(Ar.val)), c1 - c0);
           amgcl::mpi::scale(dS, 0.5); amgcl::mpi::sort_rows(dS);
           for (size_t i = 0; i < dS.local()->nrows; ++i) for (ptrdiff_t j = dS.local()->ptr[i] + 1; j < dS.local()->ptr[i+1]; ++j) if (dS.local()->col[j] <= dS.local()->col[j-1]) { fails[rank] += "sort_rows left an unsorted local row; "; break; }
+          for (size_t i = 0; i < dS.remote()->nrows; ++i) for (ptrdiff_t j = dS.remote()->ptr[i] + 1; j < dS.remote()->ptr[i+1]; ++j) if (dS.remote()->col[j] <= dS.remote()->col[j-1]) { fails[rank] += fmt("sort_rows left an unsorted remote row (row %ld: columns %ld, %ld; remote part has %ld entries in %ld rows); ", (long)i, (long)dS.remote()->col[j-1], (long)dS.remote()->col[j], (long)dS.remote()->nnz, (long)dS.remote()->nrows); i = dS.remote()->nrows - 1; break; }
           add_strip(gotS, *dS.local(), *dS.remote(), r0, c0); }
         // copy into another backend (float values)
         { typedef amgcl::mpi::distributed_matrix<amgcl::backend::builtin<float> > DMF;
